@@ -193,5 +193,25 @@ pub fn bases(seed: u64) -> Vec<Base> {
         ]),
     );
     push(Kind::Installed, "inst-empty-policy", config_data(vec![installed_policy("fltr-empty", &[], &[])]));
+    // ---- (appended later, so that the random draws of the bases above stay what they were)
+    // long free text in another script: a kilobyte or two of two- and three-byte characters puts a
+    // character across every small power-of-two offset in one variant or another
+    {
+        let long_text = |unit: &str, n: usize| -> String { std::iter::repeat(unit).take(n).collect() };
+        let mut e = rpc_error(&mut r, "error", 0);
+        e.kids.retain(|k| k.name != "error-message");
+        let e2 = e.clone().kid(N::leaf(BASE, "error-message", &format!("op\u{e9}ration refus\u{e9}e: {}", long_text("\u{e9}", 900))));
+        push(Kind::ReplyEmpty, "errors-long-two-byte-text", reply(vec![e2]));
+        let e3 = e.kid(N::leaf(BASE, "error-message", &format!("{} \u{20ac}", long_text("\u{20ac}\u{65e5}", 400))));
+        push(Kind::ReplyBare, "bare-errors-long-three-byte-text", reply(vec![e3]));
+    }
+    // load-configuration: a warning next to an error, counted
+    {
+        let res = N::el(BASE, "load-configuration-results")
+            .kid(rpc_error(&mut r, "warning", 0))
+            .kid(rpc_error(&mut r, "error", 1))
+            .kid(N::token(BASE, "load-error-count", "2"));
+        push(Kind::ReplyLoad, "load-warning-and-error-counted", reply(vec![res]));
+    }
     v
 }
